@@ -44,12 +44,13 @@ def run(ctx, replay):
         return {}, ASSUMPTIONS
     thorough = ctx.tier == "thorough"
     a = ctx.tlc_model("MC_InterpWalk", None, cfg_text=MC % (4 if thorough else 3), label="MC_InterpWalk", workers=8, timeout=1800)
+    b = ctx.tlc_model("MC_InterpOMap", "MC_InterpOMap", label="MC_InterpOMap (ordered maps, slot level)", workers=4, timeout=1800)
     traces, sums = vlib.drive_gen(ctx, "c04", 8, extra=["-n", 400 if thorough else 60, "-repeats", 32 if thorough else 8])
     n, bad = vlib.judge(ctx, "Trace_InterpWalk", traces, timeout=3000)
     vlib.report_bad(ctx, bad, sig, desc, lambda ev: {"cases": [to_case(ev)], "event": {k: ev[k] for k in ev if k not in ("before", "after")}},
                     vlib.confirm_by_cases(ctx, "c04", "Trace_InterpWalk"))
     cov = {
-        "states": a.distinct, "transitions": a.generated,
+        "states": a.distinct + b.distinct, "transitions": a.generated + b.generated,
         "traces_validated_against_impl": n - len(bad),
         "samples": [s for sm in sums for s in sm.get("samples", [])][:2],
         "evaluations": n,
